@@ -171,6 +171,12 @@ def ordinary_values(dtype, nd, seed):
         vals = [int(x) for x in rng.permutation(np.arange(-300, 301))[:22]] + [0, 7, -9999, -32768, 32767]
     else:
         vals = [float(x) / 2 for x in rng.permutation(np.arange(-300, 301))[:20]] + [0.0, 7.0, -9999.0, 7.5, 1e30]
+        if isinstance(v, (int, float)) and math.isfinite(v):
+            # samples NEAR the nodata value but different from it in float32 ("equals the nodata value" is exact):
+            # the next float32 and a value half-way inside numpy's default isclose tolerance
+            near = [float(np.nextafter(np.float32(v), np.float32(np.inf))),
+                    float(np.float32(v + 0.5 * (1e-8 + 1e-5 * abs(v))))]
+            vals = near + vals
         if not (isinstance(v, float) and math.isnan(v)):
             vals.append(math.nan)
         if not (isinstance(v, float) and math.isinf(v)):
